@@ -15,10 +15,16 @@ from .common import Ctx, MachineryError, pmap
 from . import jwkchains, refimpl as R, keys as K, joseops as J
 
 
-def mutate_jwk(case, rnd):
+KINDS = {"oct": ["oct256"], "RSA": ["RSA2048"], "EC": ["EC:" + c for c in R.EC_CURVES], "OKP": ["OKP:" + c for c in R.OKP_LEN]}
+EC_P = {"P-256": 2 ** 256 - 2 ** 224 + 2 ** 192 + 2 ** 96 - 1, "P-384": 2 ** 384 - 2 ** 128 - 2 ** 96 + 2 ** 32 - 1, "P-521": 2 ** 521 - 1,
+        "secp256k1": 2 ** 256 - 2 ** 32 - 977}
+
+
+def mutate_jwk(case, rnd, kind=None):
     kty, m, mut = case["kty"], case["member"], case["mutation"]
-    kind = {"oct": "oct256", "RSA": "RSA2048", "EC": "EC:P-256", "OKP": "OKP:Ed25519"}[kty]
+    kind = kind or KINDS[kty][0]
     j = K.get(kind)
+    other = K.get(kind, 1)
     if not case["private"]:
         j = R.public_jwk(j)
     j.update({"use": "sig", "key_ops": ["sign", "verify"] if case["private"] else ["verify"], "alg": "X", "kid": "k", "x5c": ["QUJD"], "x5u": "https://e.example/c"})
@@ -42,6 +48,15 @@ def mutate_jwk(case, rnd):
         if m == "use": j["use"] = "enc"; j["key_ops"] = ["sign"]
         elif m == "key_ops": j["use"] = "sig"; j["key_ops"] = ["encrypt"]
         else: return None
+    elif mut == "other_key":
+        if m not in other or other[m] == j[m] or m == "crv": return None
+        j[m] = other[m]
+        if kty == "EC" and m in ("x", "y"):
+            j["x"], j["y"] = other["x"], other["y"]          # a point of the curve, only not this key's
+    elif mut == "negate":
+        if not (kty == "EC" and m == "y"): return None
+        size = R.EC_CURVES[j["crv"]][1]
+        j["y"] = R.b64e((EC_P[j["crv"]] - int.from_bytes(R.b64d(j["y"]), "big")).to_bytes(size, "big")).decode()
     elif mut == "unknown_value":
         if m == "use": j["use"] = "both"
         elif m == "key_ops": j["key_ops"] = ["sign", "explode"]
@@ -53,19 +68,25 @@ def mutate_jwk(case, rnd):
 def import_case(case):
     from joserfc.jwk import JWKRegistry
     rnd = random.Random(json.dumps(case, sort_keys=True))
-    j = mutate_jwk(case, rnd)
-    if j is None:
+    outs = []
+    for kind in KINDS[case["kty"]]:          # every curve of the type
+        j = mutate_jwk(case, rnd, kind)
+        if j is None:
+            continue
+        try:
+            k = JWKRegistry.import_key(json.loads(json.dumps(j)))
+            k.as_dict()
+            outs.append("accept:" + kind)
+        except ValueError:
+            outs.append("refuse")
+        except BaseException as e:  # noqa
+            if isinstance(e, (KeyboardInterrupt, SystemExit)): raise
+            from joserfc.errors import JoseError
+            outs.append("refuse" if isinstance(e, JoseError) else "refuse:" + type(e).__name__)
+    if not outs:
         return case, "skip"
-    try:
-        k = JWKRegistry.import_key(json.loads(json.dumps(j)))
-        k.as_dict()
-        return case, "accept"
-    except ValueError:
-        return case, "refuse"
-    except BaseException as e:  # noqa
-        if isinstance(e, (KeyboardInterrupt, SystemExit)): raise
-        from joserfc.errors import JoseError
-        return case, "refuse" if isinstance(e, JoseError) else "refuse:" + type(e).__name__
+    acc = [o for o in outs if o.startswith("accept")]
+    return case, (acc[0] if acc else outs[0])
 
 
 def fresh_keys(args):
@@ -111,10 +132,10 @@ def run(ctx: Ctx) -> None:
         v = case["verdict"]
         if o.startswith("refuse"):
             nref += 1
-        if v == "refuse" and o == "accept":
+        if v == "refuse" and o.startswith("accept"):
             ctx.violation(f"jwk-import:{case['kty']} {'private' if case['private'] else 'public'} {case['member']}:{case['mutation']} accepted",
                           {"case": case, "observed": o})
-        elif v == "accept" and o != "accept":
+        elif v == "accept" and not o.startswith("accept"):
             ctx.note_drift({"case": case, "observed": o})
     if nref < 200:
         raise MachineryError("vacuous malformed-JWK run")
